@@ -573,6 +573,11 @@ def check_wrap_numpy_fold(run, tree, want=("gate-numeric", "gate-bool", "derive"
                     kw = dict(f.calls[0][1]) if f.calls else {}
                     ok_fwd = kw.get("out") == (("raw", "O"),)
                     same_buf = arr_state(out)[0] == "O"
+                    # ... under numpy's own casting rule: a keyword the caller did not give (casting="unsafe") lets a float result be truncated
+                    # into an integer buffer without the error that x_int += 0.5 must raise
+                    extra = sorted(k_ for k_ in kw if k_ != "out")
+                    run.ob(construct + "::no-keyword-added", not extra, fi.where(), "numpy receives the keywords %s" % (sorted(kw) or "none"),
+                           "x (integer data) += y (float): the result is silently truncated into x (casting='unsafe' handed to numpy) while the unit is set as if it had been stored in full")
                     run.ob(construct + "::numpy-writes-into-the-buffer", ok_fwd and same_buf, fi.where(),
                            "numpy receives out=%r; the out Array still wraps buffer %r" % (kw.get("out"), arr_state(out)[0]),
                            "x += y allocates a new buffer: slices of x taken before the update and x no longer share data")
